@@ -838,7 +838,7 @@ class Interp(ExprMixin):
         for t in val:
             if tag(t) in ("handle",):
                 st = self.emit("CLOSE", "close", [V(t[1])], node, st, frame, extra={"handle": t})
-                st = st.set(done=st.done | {("closed", t[1])})
+                st = st.set(done=(st.done - {("flocked", t)}) | {("closed", t[1])})
             elif tag(t) == "tmpfile":
                 nm = ("tmpname", t[1], t[2])
                 st = self.emit("CLOSE", "close", [V(nm)], node, st, frame, extra={"handle": t})
